@@ -29,7 +29,9 @@ Waiting(o, a) == App(o, a).parked = "send"
 
 Clauses(o, ev, o2) ==
     CASE ev.e = "quiescent" /\ o.opened ->
-            (IF Connected(o) /\ ev.held + ev.tbuf > Bound(o)
+            \* (what applications pass for a stream the client has reset is discarded, not held; the
+            \*  harness's figure does not tell the two apart, so such histories are not judged)
+            (IF Connected(o) /\ ev.held + ev.tbuf > Bound(o) /\ ~\E a \in DOMAIN o.reqs : Req(o, a).rst
              THEN <<F("held-unbounded",
                       IF IsH2(o) /\ (o.cwin <= 0 \/ \E a \in DOMAIN o.apps : Waiting(o, a) /\ SWin(o, a) <= 0)
                       THEN "h2-window-exhausted"
